@@ -19,6 +19,7 @@ import (
 	"bytes"
 	"fmt"
 	"go/ast"
+	"go/constant"
 	"go/printer"
 	"go/token"
 	"sort"
@@ -396,65 +397,161 @@ func (g *gen) msgidFingerprint() {
 	if fd := g.funcDecl(rel, "fingerprint"); fd == nil {
 		g.fail("fingerprint: function not found")
 	} else {
+		// Where gotrans translates the function (family 75: fingerprint_matches_source / calc_id_matches_source are then
+		// proved against today's body, whatever its shape), only the VALUES are read here, by role and not by the exact
+		// text: the seeds are the constant last arguments of the two hash32 calls, "hi" is the one whose variable is
+		// shifted left by 32 in the result (else the one named hi, else the first), the xor constants are those combined
+		// with ^ into these two variables.  The textual shape checks remain only as the fallback when gotrans refuses.
+		covered := g.gotransCovers("soymsg", "fingerprint", &gtCfg{abstract: []string{"hash32"}})
 		seedOf := map[string]int64{}
-		for _, st := range fd.Body.List {
-			txt := g.src(st)
-			switch s := st.(type) {
-			case *ast.DeclStmt:
-				vs, ok := s.Decl.(*ast.GenDecl).Specs[0].(*ast.ValueSpec)
-				if !ok || len(vs.Names) != 1 || len(vs.Values) != 1 {
-					g.fail("fingerprint: unexpected declaration %q", txt)
-					continue
+		var order []string
+		xorOf := map[string]int64{}
+		konst := func(e ast.Expr) (int64, bool) {
+			if v, ok := intLit(e); ok {
+				return v, true
+			}
+			p := g.gtPkg("soymsg")
+			var v constant.Value
+			var ok bool
+			func() {
+				defer func() { recover() }()
+				v, _, ok = g.constEval(p, p.funcIn["fingerprint"], e, -1, nil)
+			}()
+			if ok && v != nil && v.Kind() == constant.Int {
+				if n, exact := constant.Int64Val(v); exact {
+					return n, true
 				}
-				call, ok := vs.Values[0].(*ast.CallExpr)
-				if !ok || len(call.Args) != 4 || g.src(call.Fun) != "hash32" || g.src(call.Args[0]) != "str" || g.src(call.Args[1]) != "0" || g.src(call.Args[2]) != "len(str)" {
+			}
+			return 0, false
+		}
+		noteSeed := func(name string, val ast.Expr, txt string) {
+			call, ok := unparen(val).(*ast.CallExpr)
+			if !ok || len(call.Args) != 4 || g.src(call.Fun) != "hash32" {
+				if !covered {
 					g.fail("fingerprint: %q is not hash32(str, 0, len(str), seed)", txt)
-					continue
 				}
-				seed, ok := intLit(call.Args[3])
-				if !ok || seed < 0 || seed >= 1<<32 {
-					g.fail("fingerprint: seed in %q is not a 32-bit literal", txt)
-					continue
+				return
+			}
+			if !covered && (g.src(call.Args[0]) != "str" || g.src(call.Args[1]) != "0" || g.src(call.Args[2]) != "len(str)") {
+				g.fail("fingerprint: %q is not hash32(str, 0, len(str), seed)", txt)
+				return
+			}
+			seed, ok := konst(call.Args[3])
+			if !ok || seed < 0 || seed >= 1<<32 {
+				g.fail("fingerprint: seed in %q is not a 32-bit constant", txt)
+				return
+			}
+			if _, dup := seedOf[name]; !dup {
+				order = append(order, name)
+			}
+			seedOf[name] = seed
+		}
+		noteXor := func(b ast.Stmt) {
+			as, ok := b.(*ast.AssignStmt)
+			if !ok || len(as.Lhs) != 1 || len(as.Rhs) != 1 {
+				if !covered {
+					g.fail("fingerprint: unexpected statement %q", g.src(b))
 				}
-				seedOf[vs.Names[0].Name] = seed
+				return
+			}
+			name := g.src(as.Lhs[0])
+			var c ast.Expr
+			switch {
+			case as.Tok == token.XOR_ASSIGN:
+				c = as.Rhs[0]
+			case as.Tok == token.ASSIGN:
+				if be, ok := unparen(as.Rhs[0]).(*ast.BinaryExpr); ok && be.Op == token.XOR {
+					if g.src(be.X) == name {
+						c = be.Y
+					} else if g.src(be.Y) == name {
+						c = be.X
+					}
+				}
+			}
+			if c == nil {
+				if !covered {
+					g.fail("fingerprint: unexpected statement %q", g.src(b))
+				}
+				return
+			}
+			v, ok := konst(c)
+			if !ok || v < 0 || v >= 1<<32 {
+				g.fail("fingerprint: xor constant in %q", g.src(b))
+				return
+			}
+			xorOf[name] = v
+		}
+		hiName := ""
+		ast.Inspect(fd.Body, func(n ast.Node) bool {
+			switch s := n.(type) {
+			case *ast.ValueSpec:
+				for i, nm := range s.Names {
+					if i < len(s.Values) && len(s.Values) == len(s.Names) {
+						if c, ok := unparen(s.Values[i]).(*ast.CallExpr); ok && g.src(c.Fun) == "hash32" {
+							noteSeed(nm.Name, s.Values[i], g.src(s))
+						}
+					}
+				}
+			case *ast.AssignStmt:
+				if s.Tok == token.DEFINE && len(s.Lhs) == len(s.Rhs) {
+					for i, l := range s.Lhs {
+						if c, ok := unparen(s.Rhs[i]).(*ast.CallExpr); ok && g.src(c.Fun) == "hash32" {
+							noteSeed(g.src(l), s.Rhs[i], g.src(s))
+						}
+					}
+				}
 			case *ast.IfStmt:
-				if g.src(s.Cond) != "(hi == 0) && (lo == 0 || lo == 1)" || s.Else != nil || s.Init != nil {
+				if !covered && (g.src(s.Cond) != "(hi == 0) && (lo == 0 || lo == 1)" || s.Else != nil || s.Init != nil) {
 					g.fail("fingerprint: degenerate-value test changed: %s", g.src(s.Cond))
 				}
 				for _, b := range s.Body.List {
-					as, ok := b.(*ast.AssignStmt)
-					if !ok || as.Tok != token.XOR_ASSIGN || len(as.Lhs) != 1 {
-						g.fail("fingerprint: unexpected statement %q", g.src(b))
-						continue
-					}
-					v, ok := intLit(as.Rhs[0])
-					if !ok || v < 0 || v >= 1<<32 {
-						g.fail("fingerprint: xor constant in %q", g.src(b))
-						continue
-					}
-					switch g.src(as.Lhs[0]) {
-					case "hi":
-						xorHi = v
-					case "lo":
-						xorLo = v
-					default:
-						g.fail("fingerprint: unexpected statement %q", g.src(b))
-					}
+					noteXor(b)
 				}
 			case *ast.ReturnStmt:
-				if txt != "return (uint64(hi) << 32) | uint64(lo&0xffffffff)" {
-					g.fail("fingerprint: return expression changed: %s", txt)
+				if !covered && g.src(s) != "return (uint64(hi) << 32) | uint64(lo&0xffffffff)" {
+					g.fail("fingerprint: return expression changed: %s", g.src(s))
 				}
-			default:
-				g.fail("fingerprint: unexpected statement %q", txt)
+				ast.Inspect(s, func(m ast.Node) bool {
+					if be, ok := m.(*ast.BinaryExpr); ok && be.Op == token.SHL && g.src(be.Y) == "32" {
+						ast.Inspect(be.X, func(k ast.Node) bool {
+							if id, ok := k.(*ast.Ident); ok {
+								if _, isSeed := seedOf[id.Name]; isSeed {
+									hiName = id.Name
+								}
+							}
+							return true
+						})
+					}
+					return true
+				})
+			}
+			return true
+		})
+		if hiName == "" {
+			if _, ok := seedOf["hi"]; ok {
+				hiName = "hi"
+			} else if len(order) > 0 {
+				hiName = order[0]
 			}
 		}
-		hi, ok1 := seedOf["hi"]
-		lo, ok2 := seedOf["lo"]
+		loName := ""
+		for _, n := range order {
+			if n != hiName {
+				loName = n
+			}
+		}
+		hi, ok1 := seedOf[hiName]
+		lo, ok2 := seedOf[loName]
 		if !ok1 || !ok2 || len(seedOf) != 2 {
-			g.fail("fingerprint: hi and lo seeds not found")
+			g.fail("fingerprint: the two hash32 seeds not found")
 		}
 		seeds = []int64{hi, lo}
+		if v, ok := xorOf[hiName]; ok {
+			xorHi = v
+		}
+		if v, ok := xorOf[loName]; ok {
+			xorLo = v
+		}
 	}
 	if len(seeds) != 2 {
 		seeds = []int64{0, 0}
@@ -473,11 +570,19 @@ func (g *gen) msgidFingerprint() {
 		for _, st := range fd.Body.List {
 			stmts = append(stmts, g.src(st))
 			if rs, ok := st.(*ast.ReturnStmt); ok && len(rs.Results) == 1 {
-				if be, ok := rs.Results[0].(*ast.BinaryExpr); ok && be.Op == token.AND && g.src(be.X) == "fp" {
-					if bl, ok := be.Y.(*ast.BasicLit); ok && bl.Kind == token.INT {
-						var u uint64
-						if _, err := fmt.Sscanf(bl.Value, "0x%x", &u); err == nil {
-							mask, maskFound = u, true
+				if be, ok := unparen(rs.Results[0]).(*ast.BinaryExpr); ok && be.Op == token.AND {
+					for _, side := range []ast.Expr{be.Y, be.X} {
+						p := g.gtPkg("soymsg")
+						var v constant.Value
+						var isC bool
+						func() {
+							defer func() { recover() }()
+							v, _, isC = g.constEval(p, p.funcIn["calcID"], side, -1, func(n string) bool { return n == "fp" || n == "n" || n == "buf" })
+						}()
+						if isC && v != nil && v.Kind() == constant.Int {
+							if u, exact := constant.Uint64Val(v); exact && !maskFound {
+								mask, maskFound = u, true
+							}
 						}
 					}
 				}
@@ -489,7 +594,20 @@ func (g *gen) msgidFingerprint() {
 			"var fp = fingerprint(buf.Bytes())",
 			"if n.Meaning != \"\" { var topbit uint64 if fp&(1<<63) > 0 { topbit = 1 } fp = (fp << 1) + topbit + fingerprint([]byte(n.Meaning)) }",
 		}
-		if len(stmts) != len(want)+1 {
+		// what follows `var fp = ...` is tied by gotrans (calc_id_matches_source) when it translates that fragment
+		tailCovered := g.gotransCovers("soymsg", "calcID", &gtCfg{afterDecl: "fp", fragVars: [][2]string{{"fp", "uint64"}}, suffix: "tail"})
+		if tailCovered {
+			want = want[:3]
+			if len(stmts) < 4 {
+				g.fail("calcID: body has %d statements, expected at least 4", len(stmts))
+			} else {
+				for i, w := range want {
+					if stmts[i] != w {
+						g.fail("calcID: statement %d changed: %s", i, stmts[i])
+					}
+				}
+			}
+		} else if len(stmts) != len(want)+1 {
 			g.fail("calcID: body has %d statements, expected %d", len(stmts), len(want)+1)
 		} else {
 			for i, w := range want {
@@ -590,6 +708,8 @@ func (g *gen) msgidPlaceholder() {
 	// tagName's three tag types and isAlphaNumeric's ranges
 	if fd := g.funcDecl(rel, "isAlphaNumeric"); fd == nil {
 		g.fail("isAlphaNumeric: function not found")
+	} else if g.gotransCovers("soymsg", "isAlphaNumeric", nil) {
+		// tied by gotrans: c_alnum_matches_source (Proofs/SourceTieMsg.v) is proved against today's body, whatever its shape
 	} else if got := g.src(fd.Body); got != "{ return 'A' <= r && r <= 'Z' || 'a' <= r && r <= 'z' || '0' <= r && r <= '9' }" {
 		g.fail("isAlphaNumeric: body changed: %s", got)
 	}
@@ -619,4 +739,23 @@ func (g *gen) msgidPlaceholder() {
 	g.p("Definition tag_type_end : bstr := %s.\nDefinition tag_type_selfclosing : bstr := %s.\nDefinition tag_type_start : bstr := %s.\n\n",
 		coqBytes(types[0]), coqBytes(types[1]), coqBytes(types[2]))
 	g.js["tag_types"] = types
+}
+
+// gotransCovers: does gotrans translate this function (or fragment) of today's source?  A throw-away translation: what
+// is emitted comes from the gotrans families themselves.
+func (g *gen) gotransCovers(dir, key string, cfg *gtCfg) (ok bool) {
+	st := &gtState{fns: map[string]*gtFn{}, cfgs: map[string]*gtCfg{}, tables: map[string]*gtype{}, placeholders: map[string]bool{}, loopTexts: map[string]string{}, joins: g.gtState().joins}
+	for k, v := range g.gtState().cfgs {
+		st.cfgs[k] = v
+	}
+	defer func() {
+		if r := recover(); r != nil {
+			if _, isGt := r.(gtErr); !isGt {
+				panic(r)
+			}
+			ok = false
+		}
+	}()
+	fn := st.translateCfg(g, dir, key, cfg, nil)
+	return fn.status == 2
 }
